@@ -1,4 +1,5 @@
 import CedarVerif.Lemmas.ManifestCheck
+import CedarVerif.Lemmas.ManifestEnd
 import CedarVerif.Thm.C01
 /-
 C17 — Entity-manifest slicing keeps everything authorization needs.
@@ -8,11 +9,24 @@ C17 — Entity-manifest slicing keeps everything authorization needs.
    and erroring policies as authorization over the full store."
 
 Model: Cedar/Manifest.lean (`manifestOfExpr` = `entity_manifest_from_expr` on the typed AST, `toTypedRoots` = `to_typed`,
-`sliceStore` = `EntityManifest::slice_entities`).  What is PROVED here:
+`manifestOfEnvs` = the per-request-type body of `compute_entity_manifest`, `sliceStore` = `EntityManifest::slice_entities`).
+What is PROVED here:
 
   * `slice_monotone`             a larger trie keeps more of every value (attributes) and requests more ancestors;
   * `slice_preserves_requested`  every path the trie lists leads, in the slice of a value, to the slice of what it led to;
                                  non-record leaves are kept unchanged;
+  * `slicer_meets_spec`          THE SLICER MEETS ITS SPECIFICATION: for a trie with unique children keys whose
+                                 `is_entity_type` annotations agree with the data, the store computed by the model's slicer
+                                 (`sliceStorePure`: slice_entity / slice_val on pruned tries, the loading loop, merge of
+                                 slices per entity, compute_ancestors_request / load_ancestors) is a sub-store of the full
+                                 store (`slice_is_substore`, unconditional) and covers the trie: requested attributes,
+                                 every entity reachable along trie paths from the roots, requested ancestors
+                                 (Lemmas/Manifest{Merge,Load,Slicer}.lean).  `slicer_needs_agreeing_annotations` shows the
+                                 annotation hypothesis cannot be dropped.  Both hypotheses are PROVED for manifests:
+                                 `manifestOfExpr_wf` + `toTypedRoots_wf` (unique keys, given record types with unique
+                                 attribute names, `TypesUK`), `flagsRoots_typed` (annotations, given data that conforms to
+                                 the schema as far as the trie looks, `ConfRoots`); `coverRoots_untyped`: a store covering
+                                 the annotated (pruned) trie covers the analysis' trie (Lemmas/Manifest{Typed,WF}.lean);
   * `manifest_sound_partial`     CORE FRAGMENT (`InFrag`: literals, variables, `.`/`has` chains through records and
                                  entities, `&& || !`, `if` (also producing entities / records that are dereferenced),
                                  unary `-`, `isEmpty`, `== < <= + - *`, `in` (entity and set right-hand sides, with the
@@ -20,13 +34,23 @@ Model: Cedar/Manifest.lean (`manifestOfExpr` = `entity_manifest_from_expr` on th
                                  of binary operators must not be records): every store that is a sub-store of the full
                                  store and *covers* the trie computed by the analysis evaluates the expression exactly as
                                  the full store does (same value up to dropped record fields, same error);
-  * `response_sliced_partial`    lifted to the authorizer: same `Response` (decision, reasons, errors), hence by C01 the
-                                 decision over the slice is characterised by the satisfied policies over the FULL store.
+  * `manifest_sound_sliced`      the same for THE STORE `sliceStore (manifestOfEnvs …)` COMPUTES — analysis, `to_typed`,
+                                 slicer composed; no hypothesis about the slice is left;
+  * `response_sliced_partial`, `response_sliced_static`, `decision_sliced_*`
+                                 lifted to the authorizer: same `Response` (decision, reasons, errors), hence by C01 the
+                                 decision over the slice is characterised by the satisfied policies over the FULL store;
+                                 `_static`: for static policies with conditions in the fragment, over the slice the model
+                                 computes for their manifest;
+  * `full_statement_of_fragment` `FullStatement` (with its precise exclusions: typed-False environments, templates, tags,
+                                 unknowns, slicer failure exits) holds for every notion of typed AST / conformance such that
+                                 typed ASTs are in the fragment and conformance implies `CtxWF`, `SafeOps` (type soundness)
+                                 and `ConfRoots` (trie-directed conformance).
 
-What is only STATED (and sampled by the correspondence run, driver op `mspec`): `SlicerMeetsSpec` — the store computed by
-`sliceStore` is a sub-store that covers the trie it was given.  The full property is `FullStatement`.  It is FALSE for
-the analysed code outside the proved fragment in two ways found by this check (see `typed_false_environment_breaks_slicing`
-and known_findings.jsonl): request environments in which the typechecker types a policy `False` contribute nothing to the
+What REMAINS: enlarging `InFrag` (record / set literals, `==` / `contains` on records, extension calls); deriving `SafeOps`
+and `ConfRoots` from C03's type soundness and C11's conformance theorems (`ConfRoots` has a sound executable checker,
+`confRootsB`); the "keeps more entities" half of `slice_monotone`.  `FullStatement` is FALSE for the analysed code outside
+the stated exclusions' complement in two ways found by this check (see `typed_false_environment_breaks_slicing` and
+known_findings.jsonl): request environments in which the typechecker types a policy `False` contribute nothing to the
 manifest although evaluating the policy reads data, and template slots are analysed as the request variable.
 -/
 namespace Cedar.C17
@@ -242,21 +266,165 @@ example :
         simp [this]
   · decide +kernel
 
-/-! ## the part that is stated and sampled, and the full statement -/
+/-! ## the slicer meets its specification -/
 
-/-- NOT PROVED (checked by the driver op `mspec` on every slice of the correspondence run): whenever the slicer does not
-fail, its result invents nothing and covers the trie it was given. -/
-def SlicerMeetsSpec : Prop :=
-  ∀ (t : RootAccessTrie) (req : Request) (es : Entities), sliceFault t req es = none →
-    SubStore es (sliceStorePure t req es) ∧ CoverRoots es (sliceStorePure t req es) req t
+/-- C17: THE SLICER MEETS ITS SPECIFICATION.  For a trie whose children maps have unique keys (`RootsWF`: hash maps in Rust;
+proved for the analysis' output, `manifestOfExpr_wf`, and preserved by `to_typed`, `toTypedRoots_wf`) and whose
+`is_entity_type` annotations agree with the data (`FlagsRoots`: a node annotated entity-typed never sits on a record value;
+proved for `to_typed`'s output over data that conforms to the schema, `flagsRoots_typed`), the store the slicer computes
+invents nothing (`SubStore`) and holds everything the trie requests (`CoverRoots`): requested attributes (recursively,
+merged over all requests for the same entity), every entity reachable along trie paths from the roots, and the requested
+ancestors.  This holds for the pure result whether or not one of the slicer's `assert!`s would fire. -/
+theorem slicer_meets_spec (t : RootAccessTrie) (req : Request) (es : Entities)
+    (hwf : RootsWF t) (hfl : FlagsRoots es req t) :
+    SubStore es (sliceStorePure t req es) ∧ CoverRoots es (sliceStorePure t req es) req t :=
+  sliceStorePure_meets_spec t req es hwf hfl
+
+/-- nothing is invented, unconditionally -/
+theorem slice_is_substore (t : RootAccessTrie) (req : Request) (es : Entities) : SubStore es (sliceStorePure t req es) :=
+  sliceStorePure_sub t req es
+
+/-- The hypothesis `FlagsRoots` of `slicer_meets_spec` cannot be dropped (so the formerly sampled statement "no fault ⇒
+sub-store ∧ cover" for ARBITRARY tries is false; this is not a defect of the Rust code, whose annotations come from
+`to_typed` and whose stores are validated): with `principal.r` annotated entity-typed over a store where it is a record,
+`prune_child_entity_dereferences` drops the request for `r.x`, no `assert!` fires, and `principal.r.x == 1` changes from
+satisfied to erroring. -/
+theorem slicer_needs_agreeing_annotations :
+    let p : EntityUID := ⟨"User", "a"⟩
+    let req : Request := ⟨p, ⟨"Action", "view"⟩, ⟨"Doc", "d"⟩, []⟩
+    let es : Entities := [(p, { attrs := [("r", .record [("x", .prim (.int 1))])], ancestors := [], tags := [] })]
+    let t : RootAccessTrie := [(.var .principal, .mk [("r", .mk [("x", .new)] [] false true)] [] false true)]
+    let pol : Policy := ⟨"p0", .permit,
+      .binaryApp .eq (.getAttr (.getAttr (.var .principal) "r") "x") (.lit (.int 1)), []⟩
+    RootsWF t ∧ sliceFault t req es = none ∧
+    (isAuthorized req es [pol]).decision = .allow ∧ (isAuthorized req (sliceStorePure t req es) [pol]).decision = .deny := by
+  intro p req es t pol
+  refine ⟨by simp [t, RootsWF, AccessTrie.WF, fieldsWF, lookupField, AccessTrie.new], by decide +kernel, by decide +kernel,
+    by decide +kernel⟩
+
+/-! ## end to end: analysis, `to_typed`, slicer, authorizer -/
+
+/-- C17 (core fragment, NO run-time-checked hypothesis): evaluation over the store that `slice_entities` computes for the
+manifest of a list of typed conditions agrees with evaluation over the full store, for each of these conditions. -/
+theorem manifest_sound_sliced (s : Schema) (rt : ReqType) (req : Request) (es es' : Entities) (tps : List TExpr)
+    (t : RootAccessTrie) (hctx : CtxWF req) (huk : ∀ e, e ∈ tps → TypesUK e)
+    (hm : manifestOfEnvs s rt tps = .ok t)
+    (hconf : ∀ t0, manifestOfEnvs.go [] tps = .ok t0 → ConfRoots s rt es req t0)
+    (hs : sliceStore (some t) req es = .ok es')
+    (e : TExpr) (he : e ∈ tps) (hfrag : InFrag e) (hsafe : SafeOps req es e) :
+    (∀ x, evaluate req es [] e.erase = .error x → evaluate req es' [] e.erase = .error x) ∧
+    (∀ v, evaluate req es [] e.erase = .ok v → ∃ v', evaluate req es' [] e.erase = .ok v' ∧ Trim v' v) ∧
+    (∀ b : Bool, evaluate req es [] e.erase = .ok (.prim (.bool b)) → evaluate req es' [] e.erase = .ok (.prim (.bool b))) := by
+  obtain ⟨hsub, hcov⟩ := slice_of_manifest s rt req es es' tps t hctx huk hm hconf hs
+  obtain ⟨r, hr, hc⟩ := hcov e he
+  exact manifest_sound_partial req es es' hsub hctx e r hfrag hsafe hr hc
+
+/-- C17 (core fragment), for the authorizer: for static policies whose typed conditions are in the fragment, over a
+request and store that conform to the schema as far as the policies look (`ConfRoots`), authorization over the store
+sliced by the policies' manifest gives the same response — decision, determining policies and erroring policies — as
+authorization over the full store. -/
+theorem response_sliced_static (s : Schema) (rt : ReqType) (req : Request) (es es' : Entities) (ps : List TPolicy)
+    (t : RootAccessTrie) (hctx : CtxWF req)
+    (hps : ∀ p, p ∈ ps → InFrag p.cond ∧ SafeOps req es p.cond ∧ TypesUK p.cond)
+    (hm : manifestOfEnvs s rt (ps.map (·.cond)) = .ok t)
+    (hconf : ∀ t0, manifestOfEnvs.go [] (ps.map (·.cond)) = .ok t0 → ConfRoots s rt es req t0)
+    (hs : sliceStore (some t) req es = .ok es') :
+    isAuthorized req es' (ps.map TPolicy.toPolicy) = isAuthorized req es (ps.map TPolicy.toPolicy) := by
+  have huk : ∀ e, e ∈ ps.map (·.cond) → TypesUK e := by
+    intro e he
+    simp only [List.mem_map] at he
+    obtain ⟨p, hp, e1⟩ := he
+    subst e1
+    exact (hps p hp).2.2
+  obtain ⟨hsub, hcov⟩ := slice_of_manifest s rt req es es' _ t hctx huk hm hconf hs
+  apply isAuthorized_congr
+  intro q hq
+  simp only [List.mem_map] at hq
+  obtain ⟨p, hp, e⟩ := hq
+  subst e
+  obtain ⟨hf, hsafe, _⟩ := hps p hp
+  obtain ⟨r, hr, hc⟩ := hcov p.cond (List.mem_map.2 ⟨p, hp, rfl⟩)
+  have h := eval_sliced hsub hctx p.cond r hf hsafe hr hc
+  rw [outcome_eq_outcomeOf, outcome_eq_outcomeOf]
+  exact outcome_of_rel h
+
+/-- C17 + C01: the decision over the slice is characterised by the satisfied policies over the FULL store. -/
+theorem decision_sliced_static (s : Schema) (rt : ReqType) (req : Request) (es es' : Entities) (ps : List TPolicy)
+    (t : RootAccessTrie) (hctx : CtxWF req)
+    (hps : ∀ p, p ∈ ps → InFrag p.cond ∧ SafeOps req es p.cond ∧ TypesUK p.cond)
+    (hm : manifestOfEnvs s rt (ps.map (·.cond)) = .ok t)
+    (hconf : ∀ t0, manifestOfEnvs.go [] (ps.map (·.cond)) = .ok t0 → ConfRoots s rt es req t0)
+    (hs : sliceStore (some t) req es = .ok es') :
+    (isAuthorized req es' (ps.map TPolicy.toPolicy)).decision = .allow ↔
+      (∃ p, p ∈ ps.map TPolicy.toPolicy ∧ p.effect = .permit ∧ Sat req es p) ∧
+      ¬ (∃ p, p ∈ ps.map TPolicy.toPolicy ∧ p.effect = .forbid ∧ Sat req es p) := by
+  rw [response_sliced_static s rt req es es' ps t hctx hps hm hconf hs]
+  exact Cedar.C01.allow_iff req es _
+
+namespace Ex
+def rt : ReqType := ⟨"User", ⟨"Action", "view"⟩, "Doc"⟩
+def conds : List TExpr := [pol.cond, pol2.cond, pol3.cond]
+/-- the analysis' trie before `to_typed` -/
+def untyped : RootAccessTrie := match manifestOfEnvs.go [] conds with | .ok t => t | .error _ => []
+/-- the manifest entry of the request type -/
+def manifest : RootAccessTrie := match manifestOfEnvs schema rt conds with | .ok t => t | .error _ => []
+def sliced' : Entities := match sliceStore (some manifest) req store with | .ok es => es | .error _ => []
+end Ex
+
+/-- non-vacuity of `response_sliced_static`: every hypothesis holds for the example; nothing about the slice is assumed -/
+example :
+    isAuthorized Ex.req Ex.sliced' [Ex.pol.toPolicy, Ex.pol2.toPolicy, Ex.pol3.toPolicy] =
+      isAuthorized Ex.req Ex.store [Ex.pol.toPolicy, Ex.pol2.toPolicy, Ex.pol3.toPolicy] ∧
+    Ex.sliced'.map (·.1) = [Ex.doc, Ex.alice] := by
+  constructor
+  · have hctx : CtxWF Ex.req := ctxWF_of_check _ (by decide +kernel)
+    have hm : manifestOfEnvs Ex.schema Ex.rt ([Ex.pol, Ex.pol2, Ex.pol3].map (·.cond)) = .ok Ex.manifest := by
+      obtain ⟨t, ht⟩ := ok_of_check (r := manifestOfEnvs Ex.schema Ex.rt Ex.conds) (by decide +kernel)
+      have : Ex.manifest = t := by simp only [Ex.manifest, ht]
+      rw [this]; exact ht
+    have hs : sliceStore (some Ex.manifest) Ex.req Ex.store = .ok Ex.sliced' := by
+      obtain ⟨x, hx⟩ := ok_of_check (r := sliceStore (some Ex.manifest) Ex.req Ex.store) (by decide +kernel)
+      have : Ex.sliced' = x := by simp only [Ex.sliced', hx]
+      rw [this]; exact hx
+    have hconf : ∀ t0, manifestOfEnvs.go [] ([Ex.pol, Ex.pol2, Ex.pol3].map (·.cond)) = .ok t0 →
+        ConfRoots Ex.schema Ex.rt Ex.store Ex.req t0 := by
+      intro t0 h0
+      have : Ex.untyped = t0 := by
+        have h0' : manifestOfEnvs.go [] Ex.conds = .ok t0 := h0
+        simp only [Ex.untyped, h0']
+      rw [← this]
+      exact confRootsB_sound _ _ _ _ _ (by decide +kernel)
+    refine response_sliced_static Ex.schema Ex.rt Ex.req Ex.store Ex.sliced' [Ex.pol, Ex.pol2, Ex.pol3] Ex.manifest hctx
+      ?_ hm hconf hs
+    intro p hp
+    simp only [List.mem_cons, List.not_mem_nil, or_false] at hp
+    rcases hp with e | e | e <;> subst e
+    · refine ⟨by simp [Ex.pol, Ex.cond, InFrag, FragOp], ?_, by simp [Ex.pol, Ex.cond, TypesUK, optUK, TypeUK]⟩
+      simp only [Ex.pol, Ex.cond, SafeOps, and_true]
+      exact ⟨⟨nonRec_of_check rfl, nonRec_of_check rfl⟩, nonRec_of_check rfl, nonRec_of_check rfl⟩
+    · refine ⟨by simp [Ex.pol2, InFrag, FragOp], ?_, by simp [Ex.pol2, TypesUK, optUK, TypeUK]⟩
+      simp only [Ex.pol2, SafeOps, and_true]
+      exact ⟨nonRec_of_check rfl, nonRec_of_check rfl⟩
+    · refine ⟨by simp [Ex.pol3, InFrag, FragOp], ?_, by simp [Ex.pol3, TypesUK, optUK, TypeUK]⟩
+      simp only [Ex.pol3, SafeOps, and_true]
+      exact ⟨nonRec_of_check rfl, nonRec_of_check rfl⟩
+  · decide +kernel
+
+/-! ## the full statement -/
 
 /-- The full property, for the model.  `TypedAst s rt p te` stands for "`te` is the typed AST that strict typechecking
-of the static policy `p` yields in the request environment `rt`" (C03's subject; an environment in which the policy is
-typed `False` yields no typed AST) and `Conformant` for conformance of request and store (C11's subject).  Outside, by
-construction or by finding: policies using tags are rejected by the analysis (`MErr.unsupported`); templates
-(`slot`) and environments without a typed AST are excluded here because the property FAILS for them (known findings);
-everything else — record / set literals, `==` / `contains` on records, extension calls, `to_typed` pruning, and the slicer
-itself (`SlicerMeetsSpec`) — is inside the statement and outside `manifest_sound_partial`. -/
+of the static policy `p` yields in the request environment `rt`" (C03's subject) and `Conformant` for conformance of
+request and store (C11's subject).  PRECISE EXCLUSIONS (each is a hypothesis below or a failure exit of the model):
+  * environments in which the typechecker types the policy `False` yield no typed AST — the property FAILS for them
+    (`typed_false_environment_breaks_slicing`, known finding), so every policy must come with its typed AST (`hty`);
+  * templates: `slot`s are analysed as the request variable — the property FAILS (known finding); `p.env = []` and the
+    condition being the erasure of a slot-free typed AST keep them out;
+  * entity tags: the analysis rejects `getTag`/`hasTag` with `UnsupportedCedarFeature` (`MErr.unsupported`), so
+    `manifestOfEnvs … = .ok t` excludes them;
+  * partial expressions (`unknown`): `PartialExpressionError`, excluded the same way;
+  * slicer failure exits (`IncompatibleEntityManifest`, `assert!`s): `sliceStore … = .ok es'` excludes them.
+Everything else — record / set literals, `==` / `contains` on records, extension calls — is inside the statement and
+outside the proved fragment. -/
 def FullStatement (TypedAst : Schema → ReqType → Policy → TExpr → Prop)
     (Conformant : Schema → Request → Entities → Prop) : Prop :=
   ∀ (s : Schema) (rt : ReqType) (ps : List Policy) (tps : List TExpr) (t : RootAccessTrie) (req : Request)
@@ -268,6 +436,54 @@ def FullStatement (TypedAst : Schema → ReqType → Policy → TExpr → Prop)
     manifestOfEnvs s rt tps = .ok t →
     sliceStore (some t) req es = .ok es' →
     isAuthorized req es' ps = isAuthorized req es ps
+
+theorem policies_of_zip : ∀ (ps : List Policy) (tps : List TExpr), ps.length = tps.length →
+    (∀ p te, (p, te) ∈ ps.zip tps → p.env = [] ∧ p.condition = te.erase) →
+    ∃ tpols : List TPolicy, tpols.map TPolicy.toPolicy = ps ∧ tpols.map (·.cond) = tps
+  | [], [], _, _ => ⟨[], rfl, rfl⟩
+  | [], _ :: _, h, _ => by simp at h
+  | _ :: _, [], h, _ => by simp at h
+  | p :: ps, te :: tps, hl, h => by
+    obtain ⟨tpols, h1, h2⟩ := policies_of_zip ps tps (by simpa using hl)
+      (fun p' te' hm => h p' te' (by simp [List.zip_cons_cons, hm]))
+    obtain ⟨e1, e2⟩ := h p te (by simp [List.zip_cons_cons])
+    refine ⟨⟨p.id, p.effect, te⟩ :: tpols, ?_, ?_⟩
+    · simp only [List.map_cons, h1, TPolicy.toPolicy, ← e1, ← e2]
+    · simp only [List.map_cons, h2]
+
+/-- C17: THE FULL STATEMENT REDUCED TO ITS TWO REMAINING OBLIGATIONS.  `FullStatement` holds for every notion of typed
+AST and of conformance such that (1) typed ASTs are in the proved fragment and carry well-formed record types, and
+(2) conformant requests and stores have a context with unique keys, make the operands of the binary operators of the
+typed ASTs non-records (type soundness, C03), and conform to the schema as far as the policies' tries look (C11).
+What is missing for the unrestricted statement is exactly: enlarging `InFrag` (record / set literals, record operands,
+extension calls), and deriving (2) from C03's and C11's theorems. -/
+theorem full_statement_of_fragment (TypedAst : Schema → ReqType → Policy → TExpr → Prop)
+    (Conformant : Schema → Request → Entities → Prop)
+    (hfrag : ∀ s rt p te, TypedAst s rt p te → InFrag te ∧ TypesUK te)
+    (hconf : ∀ s rt req es (tps : List TExpr), Conformant s req es →
+      req.principal.ty = rt.principal → req.action = rt.action → req.resource.ty = rt.resource →
+      (∀ te, te ∈ tps → ∃ p, TypedAst s rt p te) →
+      CtxWF req ∧ (∀ te, te ∈ tps → SafeOps req es te) ∧
+        (∀ t0, manifestOfEnvs.go [] tps = .ok t0 → ConfRoots s rt es req t0)) :
+    FullStatement TypedAst Conformant := by
+  intro s rt ps tps t req es es' hlen hty hp ha hr hc hm hs
+  obtain ⟨tpols, e1, e2⟩ := policies_of_zip ps tps hlen (fun p te h => (hty p te h).2)
+  have hall : ∀ te, te ∈ tps → ∃ p, TypedAst s rt p te := by
+    intro te hte
+    obtain ⟨i, hi, rfl⟩ := List.getElem_of_mem hte
+    have hi' : i < ps.length := by omega
+    refine ⟨ps[i], (hty ps[i] tps[i] ?_).1⟩
+    have : (ps.zip tps)[i]'(by simp [List.length_zip]; omega) = (ps[i], tps[i]) := by simp
+    rw [← this]
+    exact List.getElem_mem _
+  obtain ⟨hctx, hsafe, hcr⟩ := hconf s rt req es tps hc hp ha hr hall
+  subst e1; subst e2
+  refine response_sliced_static s rt req es es' tpols t hctx ?_ hm hcr hs
+  intro p hpm
+  have hmem : p.cond ∈ tpols.map (·.cond) := List.mem_map.2 ⟨p, hpm, rfl⟩
+  obtain ⟨q, hq⟩ := hall p.cond hmem
+  obtain ⟨h1, h2⟩ := hfrag s rt q p.cond hq
+  exact ⟨h1, hsafe p.cond hmem, h2⟩
 
 /-- FINDING (model-level witness; the Rust run is probe `typed-false-negated-action-in` of harness/src/c17.rs): in the
 environment `(User, Action::"view", Doc)` with `view in readOnly`, the strictly valid policy
